@@ -20,6 +20,9 @@ CHECKS = {
  "C07": dict(technique="static analysis: symbolic blob terms (via paseto-core generics, DH/RSA-KEM algebra) compared with specification terms and between siblings; T-FIXW over FFI big-integer encoders; unwrap Err-exit whitelist",
    text="For 6 backends x {PIE, PBKW, PKE}: the blob term equals the PASERK specification term (domain bytes, KDF identities/split points, cipher incl. 128-bit CTR counter, MAC transcript order, parameter field layout), siblings (v3/aws-lc, v4/sodium, v1/v3, v2/v4) agree up to listed guarded deltas, every BN_bn2bin writes right-aligned into a fixed-width buffer, unwrap functions reject only on conditions the format states.",
    ref="DESIGN.md §4 C07"),
+ "C11": dict(technique="static analysis: decision-table extraction from enumerated MIR paths, exhaustive comparison with specification predicates over semantic atoms; structural path-shape rules for combinators",
+   text="Each built-in leaf validator's branch structure is mapped to semantic atoms (claim presence, 3-valued timestamp order incl. the leeway-shifted bounds, string equality) and compared with the specified predicate for every assignment of the atoms (finite, exhaustive); combinators (and_then, slices/Vec, Box/Rc/Arc, map, NoValidation) are checked on their path shapes; the unseal gate releases exactly the validated message on the validator's success edge. jiff's arithmetic/ordering is trusted.",
+   ref="DESIGN.md §4 C11"),
  "C05": dict(technique="static analysis: summary composition wrap∘unwrap through paseto-core generics (PIE, PBKW, PKE incl. DH / RSA-KEM term algebra), fixed-width layout, Err-exit and parameter-rejection classification",
    text="For 6 backends x {PIE, PBKW, PKE}: the wrap/seal summary and the unwrap/unseal summary are composed symbolically and must cancel (tag check compares identical constructions, decoder receives exactly the encoded key / the sealed key comes back), the blob is fixed-width fields plus the key field with the overhead the format prescribes, no variable-length integer encoding reaches an output field unpadded, wrap paths fail only for environmental reasons or reviewed parameter rejections.",
    ref="DESIGN.md §4 C05"),
